@@ -267,6 +267,76 @@ What the refactoring round changed (none of these touched a verdict on a seeded 
 """
 
 
+INTRO7 = """### 9.4g Seventh round: refactorings that carry one defect, and their repaired twins
+
+The two preceding rounds met in this one. Ten fresh sub-agents (same isolation, all twenty properties, one file group each) wrote three
+"refactor: ..." commits each - long functions split into private functions passing tuples / named tuples, near-duplicates merged, methods
+moved into mixins or base classes, if/elif chains replaced by tables of callables, `functools.partial` / `reduce` / `methodcaller`, a `while`
+rewritten as `for`/`break` over a generator, decorators, template methods with per-class hooks, memoised tables - in which exactly ONE detail
+came out differently (an off-by-one in a moved slice, a flipped polarity, a default that changed when two functions were merged, an argument
+lost or swapped in the new helper's signature, a cast that moved, a cache the new structure introduced, the order of two statements, a
+subclass that no longer gets what the base class gave it). 30 candidates, all re-confirmed (`seeded/Fnn-k/`: suite 933/933, demo fails with
+the patch). Then ten more sub-agents received one agent's three patches each and wrote the REPAIRED refactoring - the restructuring kept in
+full, the one detail corrected - with a digest demo that is identical on the clean and on the repaired tree (`refactorings/Gnn-k/`,
+re-confirmed by `tools/refactor.py verify`). A check that reports the defect only because it does not recognise the new structure would also
+report the repaired twin; this round measures both directions on the same structure.
+
+First run of the 30 defective patches against the checks as they stood after §9.4f: FIRST7
+
+| seed | change (one line, from the agent's meta.json) | verdict | checks that report it | first rule |
+|---|---|---|---|---|
+"""
+
+CHANGES7 = """
+The repaired twins against all twenty checks (`tools/refactor.py check`): TWINS7
+
+| repaired refactoring | verdict | checks that do not exit 0 | what the change is |
+|---|---|---|---|
+TWINTABLE7
+What the seventh round changed:
+
+* **Decorators of the repository's own were ignored** (F02-2: the closed forms of the American binary wrapped by a decorator that applies the
+  "barrier touched" mask). The interpreter followed the undecorated function, so the check reported the patch - and would have reported its
+  repaired twin just the same. A decorator that is not one of the known pass-through ones (`property`, `staticmethod`, `abstractmethod`,
+  `torch.enable_grad()`, ...) is now evaluated: the name denotes what the decorator returned (`functools.wraps` included). The verdict on F02-2
+  changed from seven findings to the three that concern the mask at `max_log_moneyness == 0`.
+* **`functools.lru_cache`** (F08-3, the only seed no check reported; also F04-2's hand-written memo): a memoised function is now followed with its
+  table (keyed by identity for objects, by value for plain arguments; `cache_clear`), and C07.R5 has a call history 'rebuild' - build the
+  module, change `strike` / `call` on the same derivative, build again: the second module carries the current contract.
+* **More Python**: `try` / `except` / `else` / `finally` over the exceptions the interpreter models (a missing key of a concrete dict is a
+  `KeyError`), `next(<generator expression>)` consumed lazily (the conditions after the first hit are not evaluated), generators of the shape
+  `setup; while True: ...; yield v; ...` as objects that run one step per `next()` (F03-2: the body of such a generator runs where it is
+  consumed - outside the `set_grad_enabled` block it was created in; C14.R4 reports exactly that), `for x in islice(gen, n)` with a first
+  iteration run on its own and the rest summarised, `for ... else` on loops of unknown length (a raise-only `else` is a guard; anything
+  else is an analysis error instead of being skipped silently), `break` on a symbolic condition in a concrete loop (both outcomes), a
+  generator whose body has effects and which is stored before it is consumed is an analysis error (its body would be run at the wrong
+  time), `Record(*t, field=v)` with a symbolic sequence, unbound `Class.method(obj, ...)`.
+* **Rules judged by outcome instead of by call shape**: C17.R5 (a derivative's `to()`) demanded one call of `BasePrimary.to` per underlier
+  with the caller's arguments - a template method with an `_apply_to` hook (F10-1) makes none; it is now a history on real objects (a
+  derivative over two underliers, three request forms: both underliers declare the requested dtype / device afterwards, `self` is
+  returned). C17's anchors `to` / `_parse_to` / `register_buffer`, and six more class-method anchors in C02, C06, C12, C13, are resolved
+  through the MRO (a method pulled up into a base class is still found). C20.R3 demanded that `WhalleyWilmott.forward` *calls* `ww_width`;
+  the band is now compared with the documented formula itself. C06.R3 sees through value-preserving wrappers (`stack.to(stack.dtype)`).
+  C05.R8 counted the global `max` of a convergence test as a reduction along the wrong axis once that test became a path decision; a branch
+  condition is one truth value for the whole sample, so only the element COUNT it uses is held to the requested axis. C03.R2 accepts
+  `torch.stack` of `(N, H)` columns along a new last axis for `cat` of `(N, 1, H)` columns + transpose; the shape engine models `reshape` /
+  `view`, and C03.R4 reports a reshape to *permuted* extents (F03-3: `(N, T, H)` viewed as `(N, H, T)` has the right shape and the wrong
+  entries); both branches of `compute_hedge` are now run with the same two hedging instruments, so sizes taken from `len(hedge)` and sizes
+  taken from the model output agree. C19.R4 judges the search that is actually run - on every path with a search loop the exit test compares
+  the bracket width with the caller's precision, the bracket starts at the caller's bounds, the budget is the caller's `max_iter` - whether
+  it is reached through `bisect`, a private `_search` or a generator of brackets (F09-2, F08-1, F10-3).
+* **Terms are DAGs**: a helper that turned a symbolic step count into a concrete one (F05-1) unrolled a simulation loop, and the tree walk over
+  the shared sub-terms did not finish within the time limit in four checks; `walk` visits a shared node once, equality short-cuts on identity
+  and cached hashes.
+* **Not solved**: the generator-based bisection of F09-2 (`for lower, upper in islice(_brackets(...), max_iter + 1): ... break ... else: raise`,
+  the decreasing case by `_negated(fn)` instead of recursion) is followed by the interpreter, but C19.R1-R3 (loop invariant, orientation,
+  bounded loop) are written for the recursion and the `while` test of `bisect`: on this structure they end in "cannot isolate the
+  increasing-orientation path" (exit 2, no verdict) - for the defective patch together with the on-point C19.R4 finding, for the repaired twin
+  alone. That is the designed failure mode (no verdict rather than a wrong one), but it is a refactoring these three rules do not survive.
+
+"""
+
+
 def rows_for(prefix_re):
     out = []
     for line in (V / "seeded" / "RESULTS.md").read_text().splitlines():
@@ -333,13 +403,47 @@ def refactorings():
     p = V / "DESIGN.md"
     s = p.read_text()
     a = s.find("### 9.4f ")
-    b = s.find("### 9.5 ")
+    b = min(x for x in (s.find("### 9.4g "), s.find("### 9.5 ")) if x != -1)
     if a == -1:
         a = b
     p.write_text(s[:a] + intro + t_ + CHANGES6 + s[b:])
     print(f"### 9.4f written: {len(rows6)} rows")
 
 
+FIRST7 = {}   # seed -> what the first run said, where it differs from the final verdict (filled from the first detection run)
+TWIN_FIRST7 = {}
+
+
+def round7():
+    r_ = rows_for(r"F\d\d-\d")
+    if not r_:
+        return
+    t_ = "".join(f"| {sid} ({prop}) | {what} | {verdict}{' (first run: ' + FIRST7[sid] + ')' if sid in FIRST7 else ''} | {fired} | {rule} |\n" for sid, prop, what, verdict, fired, rule in r_)
+    res = V / "refactorings" / "RESULTS.md"
+    twins = []
+    for line in res.read_text().splitlines():
+        m = re.match(r"\| (G\d\d-\d) \| ([A-Za-z-]+) \| ([^|]*) \| ([^|]*) \|", line)
+        if m:
+            twins.append(tuple(x.strip() for x in m.groups()))
+    tw = "".join(f"| {rid} | {verdict}{' (first run: ' + TWIN_FIRST7[rid] + ')' if rid in TWIN_FIRST7 else ''} | {which} | {what[:140]} |\n" for rid, verdict, which, what in twins)
+    n_sil = sum(1 for t in twins if t[1] == "silent")
+    intro = INTRO7.replace("FIRST7", FIRST7_TEXT)
+    changes = CHANGES7.replace("TWINTABLE7\n", tw).replace("TWINS7", f"{len(twins)} confirmed twins, {n_sil} silent in all twenty checks" + (TWINS7_TEXT if twins else ""))
+    p = V / "DESIGN.md"
+    s = p.read_text()
+    a = s.find("### 9.4g ")
+    b = s.find("### 9.5 ")
+    if a == -1:
+        a = b
+    p.write_text(s[:a] + intro + t_ + changes + s[b:])
+    print(f"### 9.4g written: {len(r_)} seeds, {len(twins)} twins")
+
+
+FIRST7_TEXT = "TODO"
+TWINS7_TEXT = ""
+
+
 if __name__ == "__main__":
     main()
     refactorings()
+    round7()
